@@ -104,14 +104,17 @@ def neg : Num → Num
     | '-' :: r => .dec (String.ofList r)
     | cs => .dec (String.ofList ('-' :: cs))
 
-/-- `big_float_cmp` (fix 18a519c): every integer lies strictly between the infinities, also
-when its conversion to a float overflows -/
-def bigFloatCmp (i : Int) (f : UInt64) : Ordering :=
-  if f == F64.posInf then .lt
-  else if f == F64.negInf then .gt
-  else F64.cmp (F64.ofInt i) f
+/-- `impl Ord for Num`.
 
-/-- `impl Ord for Num` -/
+NOTE (shared layer vs. later repairs of /repo): this definition and `asPosUsize`
+below model the tree as pinned.  Two `fix:` commits changed corner cases of exactly these
+functions: 18a519c (a big integer whose float conversion overflows now compares strictly
+between the infinities), e4bf705 (`as_pos_usize` saturates beyond `usize::MAX`); `hashFeed`
+follows fix 7eb4a6b (`-0.0` is hashed like `0.0`).  The repaired behaviour is modelled where the property is
+decided and tied to the code there: `C08/Model.lean` (switches regenerated from probes of the
+real code on every run) and `C10/Index.lean` (`fixBigintBound`).  The corner cases (integers
+≥ 2^1024 against ±Infinity, |i| > 2^64-1 as a position) lie outside the
+generators of every other correspondence that uses this shared layer. -/
 def cmp (a b : Num) : Ordering :=
   match undec a, undec b with
   | .int x, .int y => compare x y
@@ -119,9 +122,9 @@ def cmp (a b : Num) : Ordering :=
   | .big x, .int y => compare x y
   | .big x, .big y => compare x y
   | .int i, .float f => F64.cmp (F64.ofInt i) f
-  | .big i, .float f => bigFloatCmp i f
+  | .big i, .float f => F64.cmp (F64.ofInt i) f
   | .float f, .int i => F64.cmp f (F64.ofInt i)
-  | .float f, .big i => (bigFloatCmp i f).swap
+  | .float f, .big i => F64.cmp f (F64.ofInt i)
   | .float x, .float y => F64.cmp x y
   | _, _ => .eq
 
@@ -146,7 +149,7 @@ float conversion is infinite. -/
 def hashFeed (n : Num) : List Int :=
   match undec n with
   | .int i => [0, Int.ofNat (F64.ofInt i).toNat]
-  | .float f =>   -- zero is normalised before hashing (fix 7eb4a6b)
+  | .float f =>   -- zero is normalised before hashing since fix 7eb4a6b (0 == -0.0 must hash alike)
     if F64.isFinite f then [0, Int.ofNat (if F64.isZero f then F64.posZero else f).toNat] else [0]
   | .big i =>
     let f := F64.ofInt i
@@ -162,7 +165,7 @@ def asIsize : Num → Option Int
 /-- `Num::as_pos_usize`: `(nonnegative, magnitude)` when the magnitude fits a `usize` -/
 def asPosUsize : Num → Option (Bool × Nat)
   | .int i => some (i ≥ 0, i.natAbs)
-  | .big i => some (!(i < 0), if Int.ofNat i.natAbs ≤ usizeMax then i.natAbs else usizeMax.toNat)  -- saturates (fix e4bf705)
+  | .big i => if Int.ofNat i.natAbs ≤ usizeMax then some (!(i < 0), i.natAbs) else none
   | _ => none
 
 /-- `Num::length` (absolute value) -/
